@@ -113,6 +113,9 @@ type tableMon struct {
 	lastExtD           int64
 	extCalls           []*extCall
 	turnOwn            bool
+	rgStuck            int
+	departedAtGC       map[string]int
+	rgStuckReported    bool
 	snapByTask         map[string]turnSnap
 	extensions         map[string]extRec
 	turnStale          int64
@@ -182,6 +185,28 @@ func (m *tableMon) onCreated(t *pt.Table, pre []pt.JoinPlayer, startBreak bool) 
 
 // lockQueueProbes: coverage of "the engine's own step waits for the engine lock" situations.
 func (m *tableMon) lockQueueProbes() {
+	stuck := false
+	for _, fn := range m.c.Sch.LockWaiters() {
+		if strings.Contains(fn, "ReadyGroup.defValidate") {
+			stuck = true
+		}
+	}
+	if !stuck {
+		m.rgStuck = 0
+	} else if m.rgStuck++; m.rgStuck == 8 && !m.rgStuckReported {
+		// syncsaga's ReadyGroup.validate holds its RWMutex for reading and calls defValidate, which
+		// takes it for reading again; with a writer queued in between (Add from a reservation,
+		// updateState) the second read lock waits for the writer, the writer for the first read lock.
+		// Two seconds of simulated time without progress: a deadlock, not a delay.
+		m.rgStuckReported = true
+		h := m.cur
+		facts := map[string]any{"in": "syncsaga.ReadyGroup.validate", "recursive_read_lock": true}
+		if h != nil && h.settled == nil {
+			m.c.Viol("C11", "C11.ready_group_deadlocked", facts, "hand %d in progress: a ready group's loop is deadlocked on its own RWMutex (read lock taken twice with a writer queued in between); callers of that group hang, one of them holding the engine lock", h.k)
+		} else {
+			m.c.Viol("C08", "C08.ready_group_deadlocked", facts, "between hands: a ready group's loop is deadlocked on its own RWMutex (read lock taken twice with a writer queued in between); callers of that group hang, one of them holding the engine lock")
+		}
+	}
 	for _, fn := range m.c.Sch.LockWaiters() {
 		switch {
 		case strings.Contains(fn, "settleGame"):
@@ -190,6 +215,9 @@ func (m *tableMon) lockQueueProbes() {
 			m.c.Probe("reset_waits_for_engine_lock")
 		case strings.Contains(fn, "updateCurrentPlayerGameStatistics"):
 			m.c.Probe("updater_waits_for_engine_lock")
+			if m.c.Job.DumpLog && m.c.NowMs()%5000 == 0 {
+				m.c.Logf("LOCKS: %s", m.c.Sch.LockState())
+			}
 		}
 	}
 }
@@ -588,6 +616,9 @@ func (m *tableMon) checkDealtIn(h *handRec, prev *handRec) {
 					stayed = false // busted and re-bought: newcomer terms
 				}
 			}
+			if gc, left := m.departedAtGC[p.PlayerID]; left && gc >= prev.k {
+				stayed = false // left the table and came back: newcomer terms
+			}
 			if stayed {
 				c.Viol("C05", "C05.lost_eligibility", nil, "%s was dealt into hand %d, still has chips and is seated, but is not dealt into hand %d", p.PlayerID, prev.k, h.k)
 				return
@@ -909,17 +940,32 @@ func (m *tableMon) checkFirstState(h *handRec, t *pt.Table) {
 // acceptableBlinds: the level set by the last update that had returned before the open procedure
 // of h can have begun (= the previous settlement), plus every update that returned later or is
 // still in flight (it overlaps the open procedure and may fall on either side).
+// acceptableBlinds: the level in force when hand h opened is that of the last update that had
+// returned before the hand's open was published (the initial level if none); an update whose call
+// overlaps the open - invoked before the hand's first hand state, not returned before the open - may
+// or may not be the one the hand is played at.
 func (m *tableMon) acceptableBlinds(h *handRec) []blindRec {
-	var since int64
-	if p := m.hands[h.k-1]; p != nil {
-		since = p.settledSeq
-	}
 	base := m.initialBlind
+	var last *blindUpd
+	for i := range m.blinds {
+		u := m.blinds[i]
+		if u.returnSeq > 0 && u.returnSeq < h.openSeq && (last == nil || u.returnSeq > last.returnSeq) {
+			last = u
+		}
+	}
 	var out []blindRec
-	for _, u := range m.blinds {
-		if u.returnSeq > 0 && u.returnSeq <= since {
-			base = u.b
-		} else {
+	if last != nil {
+		base = last.b
+	}
+	for i := range m.blinds {
+		u := m.blinds[i]
+		switch {
+		case u == last:
+		case u.returnSeq > 0 && u.returnSeq < h.openSeq:
+			if last != nil && u.returnSeq > last.invokeSeq {
+				out = append(out, u.b) // its call overlapped the last one's: the engine may have applied them in the other order
+			}
+		case h.firstGSSeq == 0 || u.invokeSeq <= h.firstGSSeq:
 			out = append(out, u.b)
 		}
 	}
@@ -958,6 +1004,15 @@ func (m *tableMon) checkGameBlindState(h *handRec, t *pt.Table) {
 	gs := t.State.GameState
 	g := t.State.GameBlindState
 	c.Judged("C12.game_blind_state")
+	levelOK := false
+	for _, b := range m.acceptableBlinds(h) {
+		if b.level == g.Level {
+			levelOK = true
+		}
+	}
+	if !levelOK {
+		c.Viol("C12", "C12.published_level_not_in_force", nil, "hand %d publishes blind level %d; level(s) that can have been in force when it opened: %+v", h.k, g.Level, m.acceptableBlinds(h))
+	}
 	if g.Ante != gs.Meta.Ante || g.Dealer != gs.Meta.Blind.Dealer || g.SB != gs.Meta.Blind.SB || g.BB != gs.Meta.Blind.BB {
 		// startGame reads the level twice; an update in between may legitimately differ only if it overlapped
 		if len(m.acceptableBlinds(h)) == 1 {
